@@ -988,7 +988,8 @@ class FunctionAnalysis(BaseDomain):
         return VSTR
 
     def ev_FormattedValue(self, e, env):
-        self.eval(e.value, env)
+        v = self.eval(e.value, env)
+        self.emit('render', e, {'arg': v, 'how': 'f-string'})
         return VSTR
 
     def ev_Lambda(self, e, env):
@@ -1069,6 +1070,16 @@ class FunctionAnalysis(BaseDomain):
         r = self.eval(e.right, env)
         if isinstance(e.op, (ast.Div, ast.FloorDiv, ast.Mod)):
             self.emit('div', e, {'left': l, 'right': r})
+        if isinstance(e.op, ast.Mod) and (STR in l or (isinstance(e.left, ast.Constant) and isinstance(e.left.value, str))):
+            # '%r' % x and '%s' % (x, y): text conversion of the operands
+            rr = r
+            for a in r:
+                if a[0] == 'TUPLE':
+                    for x in a[1]:
+                        rr = rr | x
+                elif a[0] == 'FRESH':
+                    rr = rr | a[3]
+            self.emit('render', e, {'arg': rr, 'how': '%-format'})
         return self._binop_value(e.op, l, r, e)
 
     def _binop_value(self, op, l, r, node):
